@@ -75,7 +75,7 @@ def run(entries, workname, design_L=None, design_ws=(), product_depth=8, do_prod
             env, _ = pipeline.tlc_inputs(part, work, 'design%d' % ci, with_traces=False)
             env.pop('VERIF_DUMPS', None)
             cfg = pipeline.write_cfg(work, 'design%d' % ci, 'Spec',
-                                     design_invs or ['Safe', 'AcceptsExactlyTheLanguage', 'ResultIsDerivationTree', 'ReportedOnceAtTheRightPlace', 'PrecedenceShapesTheTree'],
+                                     design_invs or ['Safe', 'AcceptsExactlyTheLanguage', 'ResultIsDerivationTree', 'ReportedOnceAtTheRightPlace', 'PrecedenceShapesTheTree', 'TokensDroppedOnlyUnderError'],
                                      {'L': design_L, 'WSBYTES': pipeline.tla_set(design_ws)})
             tasks.append(('design', part, (lambda env=env, cfg=cfg, ci=ci: _soft(lambda: vlib.run_tlc('MCDriver', cfg, env, '%s_design%d' % (workname, ci), workers=tlc_workers, timeout=timeout)))))
     t1 = time.time()
